@@ -1,4 +1,5 @@
 import NibabelModel.Model.C13
+import NibabelModel.Model.C13_Py
 import Driver.Util
 /-! Line-protocol driver for C13.
 
@@ -14,7 +15,15 @@ caller keeping `hdr`.
 ops: `g<f|u|x><4|8|i>` get_fdata(fill|unchanged|bad caching, f4|f8|int16) · `d<f|u|x>` get_data ·
 `a` asarray(dataobj) · `s<a>,<b>,<c>` dataobj[a:b:c] (`_` = None) · `u` uncache · `e<k>` edit array k ·
 `el` edit last returned · `m` in_memory · `h<i|o>:s<slope>,<inter>` / `h<i|o>:n<k>` / `h<i|o>:t<dt>`
-header edits on img.header / the constructor's header. -/
+header edits on img.header / the constructor's header.
+
+`C13 gen <same arguments as run>` → the same observables computed by the METHODS TRANSLATED FROM THE CURRENT SOURCE
+(`gtrace`, Model/C13_Py.lean: Generated/C13Funcs.lean run on the attribute dict of the abstract image state with the
+primitives `prims`); `gen-failed` when the translated code leaves the modelled domain.
+
+`C13 genst <kind> <dt> <slope|_> <inter|_> <raw> <extra heap: dt:csv:w|r/...|-> <fcache id|_> <dcache id|_> <ops>` →
+the same from an INJECTED abstract state: extra arrays appended to the heap (after the own array of an array image),
+`_fdata_cache` / `_data_cache` pointing at any of them (reachable or not). -/
 namespace Nb.Drv.C13
 open Nb Nb.C13
 
@@ -106,7 +115,78 @@ def parseKind? (s : String) : Option (String × IOp) :=
   | [k, io] => if k = "A" then none else (parseIO? io).map (fun x => (k, x))
   | _ => none
 
+def parseArr? (s : String) : Option Arr :=
+  match s.splitOn ":" with
+  | [dt, vals, w] =>
+      match parseDT? dt, parseIntList? vals, (if w = "w" then some false else if w = "r" then some true else none) with
+      | some dt, some vals, some ro => some ⟨dt, vals, ro⟩
+      | _, _, _ => none
+  | _ => none
+
+def parseHeap? (s : String) : Option (List Arr) :=
+  if s = "-" then some [] else (s.splitOn "/").mapM parseArr?
+
+def parseOptNat? (s : String) : Option (Option Nat) :=
+  if s = "_" then some none else s.toNat?.map some
+
+/-- the flat initial state of the constructor the code uses (`code_constructors_flat`) -/
+def flatInit? (kind : String) (dt : DT) (sc : Option (Int × Int)) (raw : List Int) (io : IOp) : Option State :=
+  let h : Hdr := ⟨sc, raw.length, dt⟩
+  if kind = "A" then some (initArray ⟨dt, raw, false⟩ h)
+  else if kind = "P" ∨ kind = "C" then some (initProxy raw h io)
+  else none
+
+def showGen (t : Spec) (ops : List Op) : String :=
+  if ops.any (fun o => match o, t.img with | .slice _, .array _ => true | _, _ => false) then "bad-op"
+  else
+    match gtrace t (ops.map GOp.ofOp) with
+    | some outs => "|".intercalate (outs.map showOut) ++ " F1"
+    | none => "gen-failed"
+
+def showPPar (p : PPar) : String :=
+  "n=" ++ toString p.n ++ " dt=" ++ showDT p.dt ++ " off=" ++ toString p.off ++ " slope=" ++ toString p.slope ++
+    " inter=" ++ toString p.inter
+
+/-- `C13 genspec H <slope|_> <inter|_> <n> <dt> <off>` / `T <n> <dt> <rest csv|->` / `S <0|1> <n>`: the `spec`
+    handling of `ArrayProxy.__init__` TRANSLATED from the current source, on a header object / a tuple
+    `((n,1,1), dtype) + rest` / `()` or `((n,1,1),)` -/
+def showSpec (sp : ProxySpec) : String :=
+  match gProxySpec sp with
+  | some (.ok p) => showPPar p
+  | some (.error e) => showErr e
+  | none => "gen-failed"
+
 def handle : List String → String
+  | ["genspec", "H", sl, it, n, dt, off] =>
+      match parseOptInt? sl, parseOptInt? it, n.toNat?, parseDT? dt, off.toInt? with
+      | some sl, some it, some n, some dt, some off => showSpec (.header sl it n dt off)
+      | _, _, _, _, _ => "bad-op"
+  | ["genspec", "T", n, dt, rest] =>
+      match n.toNat?, parseDT? dt, parseIntList? rest with
+      | some n, some dt, some rest => showSpec (.tuple n dt rest)
+      | _, _, _ => "bad-op"
+  | ["genspec", "S", w, n] =>
+      match (if w = "0" then some false else if w = "1" then some true else none), n.toNat? with
+      | some w, some n => showSpec (.short w n)
+      | _, _ => "bad-op"
+  | ["gen", kindio, dt, slope, inter, raw, ops] =>
+      match parseKind? kindio, parseDT? dt, parseScale? slope inter, parseIntList? raw, parseOps? ops with
+      | some (kind, io), some dt, some sc, some raw, some ops =>
+          match flatInit? kind dt sc raw io with
+          | some s0 => showGen (abs s0) ops
+          | none => "bad-op"
+      | _, _, _, _, _ => "bad-op"
+  | ["genst", kindio, dt, slope, inter, raw, heap, fc, dc, ops] =>
+      match parseKind? kindio, parseDT? dt, parseScale? slope inter, parseIntList? raw, parseOps? ops,
+            parseHeap? heap, parseOptNat? fc, parseOptNat? dc with
+      | some (kind, io), some dt, some sc, some raw, some ops, some extra, some fc, some dc =>
+          match flatInit? kind dt sc raw io with
+          | some s0 =>
+              let s1 : State := { s0 with heap := s0.heap ++ extra, fcache := fc, dcache := dc }
+              let ok (o : Option Nat) : Bool := match o with | none => true | some i => i < s1.heap.length
+              if ok fc && ok dc then showGen (abs s1) ops else "bad-op"
+          | none => "bad-op"
+      | _, _, _, _, _, _, _, _ => "bad-op"
   | ["run", kindio, dt, slope, inter, raw, ops] =>
       match parseKind? kindio, parseDT? dt, parseScale? slope inter, parseIntList? raw, parseOps? ops with
       | some (kind, io), some dt, some sc, some raw, some ops =>
